@@ -163,6 +163,14 @@ theorem encode_prefix_free (t : Ty) (v v' : Val t) (a b x y : Bytes) (hwf : WF t
   rw [h] at h'
   injection h'
 
+/-- Streams: any number of (well-formed) values of one type written one behind the other, followed by
+    arbitrary bytes, are read back in order by as many decodes, which leave exactly the follower — the
+    round trip composes over unbounded sequences of messages (no length prefix involved). -/
+theorem roundtrip_stream (t : Ty) (vs : List (Val t)) (bs rest : Bytes) (hwf : ∀ v ∈ vs, WF t v)
+    (h : encList (encode t) vs = some bs) :
+    decList (decode t) vs.length (bs ++ rest) = .ok (vs, rest) :=
+  encList_dec (encode t) (decode t) vs (fun x hx b r hb => roundtrip t x b r (hwf x hx) hb) bs rest h
+
 /-! non-vacuity: concrete non-trivial values meet the hypotheses -/
 example : WF (.dictH (.uint .w1) (.seq .str)) [((1 : Int), [[104, 105]]), ((2 : Int), [])] := by
   refine ⟨by decide, ?_⟩
@@ -187,3 +195,4 @@ end Slicec.C10
 #print axioms Slicec.C10.narrow_in_range
 #print axioms Slicec.C10.encode_injective
 #print axioms Slicec.C10.encode_prefix_free
+#print axioms Slicec.C10.roundtrip_stream
